@@ -26,6 +26,7 @@ type FaultRule struct {
 type Faults struct {
 	mu    sync.Mutex
 	Rules []*FaultRule
+	Hook  func(store, op, key string) // called before every call, outside the lock
 }
 
 var ErrTransient = errors.New("verif: injected transient store failure")
@@ -33,6 +34,9 @@ var ErrTransient = errors.New("verif: injected transient store failure")
 func (f *Faults) check(store, op, key string) error {
 	if f == nil {
 		return nil
+	}
+	if f.Hook != nil {
+		f.Hook(store, op, key)
 	}
 	f.mu.Lock()
 	defer f.mu.Unlock()
